@@ -8,6 +8,8 @@ import (
 	"go/types"
 	"sort"
 	"strings"
+
+	"golang.org/x/tools/go/packages"
 )
 
 // EnumConsts lists the package-level constants of the named type (declared in the type's package).
@@ -287,4 +289,55 @@ func (c *Ctx) InverseSwitches(rule, aRef, aType, bRef, bType string, except map[
 	}
 	c.Pass(rule, aRef, what, fmt.Sprintf("%d↔%d constants", len(am), len(bm)))
 	return true
+}
+
+// MapLitEntries returns, for the composite literal that initialises the package-level map variable ref,
+// the value expression per constant/string key, together with the package that holds the literal.
+func (p *Prog) MapLitEntries(ref string) (map[string]ast.Expr, *packages.Package) {
+	obj := p.Global(ref)
+	for _, pk := range p.Pkgs {
+		if pk.Types != obj.Pkg() {
+			continue
+		}
+		for _, file := range pk.Syntax {
+			for _, d := range file.Decls {
+				gd, ok := d.(*ast.GenDecl)
+				if !ok {
+					continue
+				}
+				for _, sp := range gd.Specs {
+					vs, ok := sp.(*ast.ValueSpec)
+					if !ok {
+						continue
+					}
+					for i, id := range vs.Names {
+						if pk.TypesInfo.Defs[id] != obj || i >= len(vs.Values) {
+							continue
+						}
+						cl, ok := ast.Unparen(vs.Values[i]).(*ast.CompositeLit)
+						if !ok {
+							undecided("%s is not initialised by a composite literal", ref)
+						}
+						out := map[string]ast.Expr{}
+						for _, el := range cl.Elts {
+							kv, ok := el.(*ast.KeyValueExpr)
+							if !ok {
+								continue
+							}
+							key := types.ExprString(kv.Key)
+							if c := constOf(pk.TypesInfo, kv.Key); c != nil {
+								key = c.Name()
+							} else if tv, ok := pk.TypesInfo.Types[kv.Key]; ok && tv.Value != nil {
+								key = strings.Trim(tv.Value.ExactString(), `"`)
+							}
+							out[key] = kv.Value
+						}
+						return out, pk
+					}
+				}
+			}
+		}
+	}
+	undecided("%s: initialiser not found", ref)
+	return nil, nil
 }
